@@ -21,10 +21,13 @@ func (consumer *Consumer) Loop() {
 		if consumer.lifecycle.IsKilled() {
 			return
 		}
+		// read the step before testing the queues: close is announced only after
+		// the last producer finished, so "closed, then empty" means nothing is left
+		step := consumer.lifecycle.Step()
 		if len(consumer.loopData.chans.dirChan) == 0 &&
 			len(consumer.loopData.chans.fileChan) == 0 {
 			verifhook.Yield("fsloop.consumer.gap")
-			if consumer.lifecycle.Step() == StepClose {
+			if step == StepClose {
 				return
 			}
 			runtime.Gosched()
